@@ -550,6 +550,7 @@ static unsigned char deref(unsigned pos, ring_t *ring)
 
 static size_t bundle_ring_length(ring_t *ring)
 {
+    const size_t total_len = ring[0].len+ring[1].len;
     unsigned pos = 8+8;//goto first length field
     uint32_t advance = 0;
     do {
@@ -557,11 +558,16 @@ static size_t bundle_ring_length(ring_t *ring)
                   deref(pos+1, ring) << (8*2) |
                   deref(pos+2, ring) << (8*1) |
                   deref(pos+3, ring) << (8*0);
-        if(advance)
+        if(advance) {
+            //an element reaching past the end means no full bundle is
+            //present (and must not wrap the 32 bit position)
+            if(advance > total_len || (size_t)pos+4 > total_len-advance)
+                return 0;
             pos += 4+advance;
+        }
     } while(advance);
 
-    return pos <= (ring[0].len+ring[1].len) ? pos : 0;
+    return pos <= total_len ? pos : 0;
 }
 
 //Zero means no full message present
